@@ -162,6 +162,23 @@ pub fn gen_giant_inbound_opts(r: &mut Rng, seq: u8, text_only: bool) -> Plan {
                     cols: vec![],
                 }),
             });
+            // the giant chunk is the first, a middle or the last chunk of its parameter
+            let small = |r: &mut Rng| {
+                let n = 1 + r.usize_below(1000);
+                Cmd {
+                    seq: 0,
+                    kind: CmdKind::LongData {
+                        stmt: 4,
+                        param: 0,
+                        data: Blob::Lit(r.bytes(n)),
+                    },
+                    act: Act::None,
+                }
+            };
+            if r.coin() {
+                let c = small(r);
+                cmds.push(c);
+            }
             // payload = 1 + 4 + 2 + data
             cmds.push(Cmd {
                 seq,
@@ -176,6 +193,10 @@ pub fn gen_giant_inbound_opts(r: &mut Rng, seq: u8, text_only: bool) -> Plan {
                 },
                 act: Act::None,
             });
+            if r.coin() {
+                let c = small(r);
+                cmds.push(c);
+            }
             cmds.push(Cmd {
                 seq: 0,
                 kind: CmdKind::Execute {
